@@ -254,6 +254,15 @@ def forked_run(wl: dict, cache_dir: Path | None, logpath: str, kill: dict | None
                 whole=(kill or {}).get("whole", True),
                 scope=(kill or {}).get("scope", wl.get("scope", "parallel")),
             )
+            if wl.get("cross_device") and cache_dir is not None:
+                import tempfile
+
+                tdir = Path(logpath).parent / "tmpdir"
+                tdir.mkdir(exist_ok=True)
+                tempfile.tempdir = str(tdir)
+                Path(cache_dir).mkdir(parents=True, exist_ok=True)
+                crashfs.simulate_cross_device(str(cache_dir))
+                plan.trace_shutil = True
             ls = (kill or {}).get("lockstep")
             pplan = None
             if wl["parallel"]:
@@ -369,6 +378,8 @@ def gen_workload(rng: SimRng, tier: str) -> dict:
         # a user-supplied cache (own naming / writer / reader): transparency and no-recompute are
         # demanded of it; crash consistency is the writer's own business, so no kills there
         "cache_style": "dat" if r.random() < 0.12 else "default",
+        # the cache directory on another file system than the temp directory / working directory
+        "cross_device": r.random() < 0.3,
     }
 
 
@@ -752,6 +763,10 @@ class CrashMachine(Machine):
         if wl.get("cache_style", "default") != "default":
             new = copy.deepcopy(case)
             new["workload"]["cache_style"] = "default"
+            yield new
+        if wl.get("cross_device"):
+            new = copy.deepcopy(case)
+            new["workload"]["cross_device"] = False
             yield new
         sc = (wl.get("lockstep") or {}).get("script")
         if sc:
